@@ -89,7 +89,7 @@ fn build_surplus_sub(spec: &Spec, kind: u8) -> Option<World> {
             },
             sigs: vec![SigEntry::good(k)],
             tamper: None,
-            links: vec![LinkFile { step: "inner".into(), filed_under: worker.clone(), body: Body::Link { link, sigs: vec![SigEntry::good(&worker)], tamper: None } }],
+            links: vec![LinkFile { step: "inner".into(), filed_under: worker.clone(), name_field: None, body: Body::Link { link, sigs: vec![SigEntry::good(&worker)], tamper: None } }],
         };
         if ci == bad {
             match kind % 4 {
@@ -105,7 +105,7 @@ fn build_surplus_sub(spec: &Spec, kind: u8) -> Option<World> {
                 }
             }
         }
-        w.links.push(LinkFile { step: name.clone(), filed_under: k.clone(), body: Body::Sub { world: Box::new(inner), placement: Placement::Proper } });
+        w.links.push(LinkFile { step: name.clone(), filed_under: k.clone(), name_field: None, body: Body::Sub { world: Box::new(inner), placement: Placement::Proper } });
     }
     Some(w)
 }
